@@ -1869,10 +1869,25 @@ struct HashFillSim : HashMgrSim {
                 if (wide.empty())
                         return p;
                 auto pr = wide[idx % wide.size()];
+                // every fourth case goes to the widest managers (32 lanes: the deepest minimum-reduction trees) with the interleaved layouts in turn
+                std::vector<std::pair<int, int>> widest;
+                for (auto &w : wide)
+                        if (g_algos[w.first].fams[w.second].lanes >= 32)
+                                widest.push_back(w);
+                bool to_widest = idx % 4 == 3 && !widest.empty();
+                if (to_widest)
+                        pr = widest[(idx / 4) % widest.size()];
                 int lanes = g_algos[pr.first].fams[pr.second].lanes;
                 static const uint32_t masks[10] = { 0x0000ffffu, 0xffff0000u, 0x0f0f0f0fu, 0xf0f0f0f0u, 0x00ff00ffu, 0xff00ff00u, 0x00000f0fu, 0x0000f0f0u, 0x000000ffu, 0x7fffffffu };
                 // (the two halves in two of three visits of a pair, the other layouts in turn)
                 uint32_t m = idx % 3 == 0 ? 0x0000ffffu : idx % 3 == 1 ? 0xffff0000u : masks[(idx / wide.size()) % 10];
+                if (to_widest) {
+                        m = masks[2 + (idx / 8) % 8];
+                        // every other widest case: giants everywhere except one submission - the only short job meets an all-giant partner at every
+                        // level of the minimum reduction it takes part in
+                        if ((idx / 4) & 1)
+                                m = ~(1u << ((idx / 4) * 7 % 32));
+                }
                 if (lanes == 16 && (m & 0xffffu) == 0xffffu)
                         m = (idx & 1) ? 0x00ffu : 0xff00u;
                 if (lanes == 8 && (m & 0xffu) == 0xffu)
